@@ -787,6 +787,71 @@ def _memory_probe(cases):
     return q.get()
 
 
+def _get(t, path):
+    for h in path:
+        t = t[1] if h == "w" else t.value if h == "t" else t[h] if isinstance(h, int) else t[h[1]]
+    return t
+
+
+def _parse_cpu(data):
+    """CPU seconds (process time, best of two) of one parse attempt, whatever its outcome."""
+    import time
+    from suit_generator.suit.envelope import SuitEnvelopeTagged
+    best = None
+    for _ in range(2):
+        t0 = time.process_time()
+        try:
+            SuitEnvelopeTagged.from_cbor(data).to_obj()
+        except BaseException:  # noqa: BLE001  (outcome kinds are the business of the other clauses)
+            pass
+        dt = time.process_time() - t0
+        best = dt if best is None or dt < best else best
+    return best
+
+
+def _scaling_probe(B, name, data, max_nodes):
+    """Time proportional to the input size: every ARRAY node of the envelope (bstr wraps opened) is blown up to N and to 4N elements by repeating its
+    own elements (so the items stay well-formed: command / argument pairs, components, authentication blocks ...), and the top-level map gets N and
+    4N integrated payloads.  N is raised until one parse costs >= 0.05 CPU-seconds; a parser whose cost is linear in the number of items then needs
+    about 4x for 4N - more than 10x (quadratic growth gives 16x) is reported.  CPU time, best of two, so that a loaded machine does not matter."""
+    import cbor2
+    t = _tree(data)
+    arrays = [p for p in _paths(t) if isinstance(_get(t, p), list) and len(_get(t, p)) >= 1]
+    probes = [("array", p) for p in arrays[:max_nodes]] + [("payloads", ())]
+    for kind, path in probes:
+        def build(n):
+            if kind == "array":
+                elems = _get(t, path)
+                return _encode(_rebuild(t, path, (elems * (n // len(elems) + 1))[:n]))
+            v = cbor2.loads(data)
+            m = dict(v.value)
+            for i in range(n):
+                m[f"#p{i}"] = b"x"
+            return cbor2.dumps(cbor2.CBORTag(v.tag, m))
+        n, t1 = 2000, 0.0
+        while n <= 64000:
+            try:
+                small = build(n)
+            except Exception:  # noqa: BLE001
+                small = None
+                break
+            t1 = _parse_cpu(small)
+            if t1 >= 0.05:
+                break
+            n *= 2
+        if small is None or t1 < 0.05:
+            continue  # rejected at once / too cheap to measure: nothing grows with this container
+        big = build(4 * n)
+        t4 = _parse_cpu(big)
+        B.case((name, "scaling", kind, str(path)))
+        if t4 > 10 * t1:
+            t4b, t1b = _parse_cpu(big), _parse_cpu(small)  # measured again before it is reported
+            if t4b > 10 * t1b:
+                B.fail("parse-time-proportional-to-input-size", {"kind": "scaling", "envelope": name, "container": kind, "path": str(path), "items": [n, 4 * n],
+                                                                 "input_bytes": [len(small), len(big)], "cpu_seconds": [round(t1b, 3), round(t4b, 3)]},
+                       f"{len(small)} -> {len(big)} input bytes (x{len(big) / len(small):.1f}) but {t1b:.2f} s -> {t4b:.2f} s CPU (x{t4b / t1b:.1f}): parse time grows faster than the input")
+
+
 def bounded(ctx):
     from bounded.harness import Bounded
     from pyvc import native
@@ -866,6 +931,8 @@ def bounded(ctx):
                 B.fail("length-inflation-fails-cleanly", {"kind": "bytes", "hex": m.hex(), "envelope": name}, msg)
         for i, why in _memory_probe(inflated):
             B.fail("length-inflation-memory-bounded", {"kind": "bytes", "hex": inflated[i].hex() if i >= 0 else "", "envelope": name}, why)
+    for name, data in envs[:1] + envs[-1:] if quick else envs:
+        _scaling_probe(B, name, data, 14 if quick else 200)
     for depth in ((10, 50, 90, 200, 600) if quick else (10, 50, 90, 120, 200, 400, 600, 1000)):
         B.case(("nest", depth))
         msg = parse_cleanly(_nested_run_sequence(depth))
@@ -877,6 +944,8 @@ def bounded(ctx):
 def replay_case(case):
     from pyvc import native
     native.install_log_shim()
+    if case.get("kind") == "scaling":
+        return False, "re-run the check: the scaling probe rebuilds its inputs from the sample envelopes (" + str(case.get("path")) + ")"
     if case.get("kind") == "nested-run-sequence":
         msg = parse_cleanly(_nested_run_sequence(case["depth"]))
     else:
